@@ -796,3 +796,15 @@ B("b55", ["C08", "C09", "C05", "C12"], VI, "        for _ in range(max_iteration
 B("b56", ["C08", "C09", "C12", "C01", "C05"], VI, "            self.values = new_values\n\n            logger.info(\n                f\"Iteration {self.iteration}: {self._convergence_desc}",
   "            self.values, self._last_conv = new_values, None\n\n            logger.info(\n                f\"Iteration {self.iteration}: {self._convergence_desc}",
   "parallel assignment of the iterate and an unrelated attribute")
+
+# =============================================================================== own probes of the eighth wave
+B("b57", ["C18", "C03"], BATCH, "        if self.n_pad > 0:\n            return results[: -self.n_pad]\n        return results",
+  "        return results[: results.shape[0] - self.n_pad]", "padding stripped by the row count instead of a negative bound")
+M("m165", "C10", "R10.3", CKPT, "        self._restore_state_from_checkpoint(cp_state)\n\n    def _save_solver_config",
+  "        if step != getattr(self, \"iteration\", None):\n            self._restore_state_from_checkpoint(cp_state)\n\n    def _save_solver_config",
+  "load_checkpoint skips the restore when the chosen step equals the solver's current counter (e.g. a solver that ran on to the same iteration count with other settings)")
+M("m166", "C08", "R8.10", SOLVER, "self.epsilon = self.config.epsilon", "self.epsilon = self.config.epsilon * 1.0000001",
+  "every threshold computed from a slightly larger tolerance than the configured one")
+B("b58", ["C10", "C09", "C12"], CKPT, "        step = step or manager.latest_step()\n        if step is None:\n            raise ValueError(f\"No checkpoints found in {checkpoint_dir}\")\n\n        # Restore state",
+  "        step = step or max(manager.all_steps(), default=None)\n        if step is None:\n            raise ValueError(f\"No checkpoints found in {checkpoint_dir}\")\n\n        # Restore state",
+  "latest step taken as the maximum of the manager's own integer steps")
